@@ -202,11 +202,12 @@ def real_quantise(fmt: Any, bits: int, dtype: torch.dtype = torch.float32, shape
     for s in shape:
         n *= s
     xt = x.expand(max(n, 1)).clone()[: n if shape else 1].reshape(shape)
-    orig = torch.randint
+    orig, orig_like = torch.randint, torch.randint_like
     it = iter(draws or [])
+    drawn: List[int] = []
 
-    def fake_randint(*a: Any, **k: Any) -> torch.Tensor:
-        r = orig(*a, **k)
+    def _pin(r: torch.Tensor) -> torch.Tensor:
+        drawn.append(r.numel())
         try:
             v = next(it)
             r.fill_(v)
@@ -214,13 +215,20 @@ def real_quantise(fmt: Any, bits: int, dtype: torch.dtype = torch.float32, shape
             pass
         return r
 
-    torch.randint = fake_randint
+    def fake_randint(*a: Any, **k: Any) -> torch.Tensor:
+        return _pin(orig(*a, **k))
+
+    def fake_randint_like(*a: Any, **k: Any) -> torch.Tensor:
+        return _pin(orig_like(*a, **k))
+
+    torch.randint, torch.randint_like = fake_randint, fake_randint_like
     try:
         x0 = xt.clone()
         q = fmt.quantise(xt)
         modified = not torch.equal(x0.view(torch.int32 if dtype == torch.float32 else torch.int64 if dtype == torch.float64 else torch.int16),
                                    xt.view(torch.int32 if dtype == torch.float32 else torch.int64 if dtype == torch.float64 else torch.int16))
     finally:
-        torch.randint = orig
+        torch.randint, torch.randint_like = orig, orig_like
     q._verif_modified = modified  # type: ignore[attr-defined]
+    q._verif_drawn = list(drawn)  # type: ignore[attr-defined]
     return q
